@@ -90,12 +90,14 @@ Theorem C05_validate_fixpoint : forall orc f v, normal orc f v -> validate_with 
 Proof. exact validate_fixpoint. Qed.
 Print Assumptions C05_validate_fixpoint.
 
-(* ---- the on-disk round trip: every class except typed DictField (rt_dom), typed lists of anything by induction ---- *)
-Theorem C05_basic_roundtrip_partial : forall orc f v,
+(* ---- the on-disk round trip: every modelled class, typed lists and dicts of anything (bytes included) by induction.
+   rt_dom: typed-container positions hold a container (None comes back empty, next theorem), untyped containers are
+   builtin, dict keys are pairwise different hashable scalars under a scalar key field ---- *)
+Theorem C05_basic_roundtrip : forall orc f v,
   normal orc f v -> rt_dom f v ->
   exists b p, to_basic f v = Ok b /\ to_python_with orc f b = Ok p /\ validate_with orc f p = Ok v.
-Proof. exact basic_roundtrip_partial. Qed.
-Print Assumptions C05_basic_roundtrip_partial.
+Proof. exact basic_roundtrip. Qed.
+Print Assumptions C05_basic_roundtrip.
 
 Theorem C05_unset_typed_container : forall orc fid req it kf vf,
   to_basic (FListT fid req it) PNone = Ok PNone /\
